@@ -1,10 +1,12 @@
 package main
 
-// c41-facts <overlay/reuse.go>  : print Gen.lean — the cache-status snapshot and the decision tree of
-//                                  QUIC.reuseConnection, translated mechanically from the Go AST.
-// c41-lines <overlay/reuse.go>  : print the same two functions as exhaustive tables (one row per input) for
-//                                  the harness: `snap <cached> <cdir> <dir> => <state>,<dir>` and
-//                                  `leaf <ps> <pd> <cached> <cdir> <dir> <rc> <rcdir> => <act>`.
+// c41-facts <overlay/reuse.go> <overlay/reaper.go> : print Gen.lean — the cache-status snapshot and the decision
+//                                  tree of QUIC.reuseConnection and what QUIC.reapPeer does with the cache entry,
+//                                  translated mechanically from the Go AST.
+// c41-lines <overlay/reuse.go> <overlay/reaper.go> : print the same functions as exhaustive tables (one row per
+//                                  input) for the harness: `snap <cached> <cdir> <dir> => <state>,<dir>`,
+//                                  `leaf <ps> <pd> <cached> <cdir> <dir> <rc> <rcdir> => <act>` and
+//                                  `reap <loaded> => del=…,closeCached=…,closeTrigger=…`.
 //
 // Supported shape (anything else aborts with a non-zero exit, which ./check reports as a broken obligation):
 //   snapshot: the `if cached {…} else {…}` that follows `cache, cached := t.cachedConnections.Load(qKey)`;
@@ -15,6 +17,13 @@ package main
 //             `cache, cached = t.cachedConnections.Load(qKey)` (re-load), `fresh.quic.CloseWithError(…)`,
 //             `cache.quic.CloseWithError(…)`, `t.cachedConnections.Store(qKey, fresh|cache)`,
 //             `t.cachedConnections.Delete(qKey)`, `return <cache|fresh|nil>, <bool>, <nil|wrapReuseError(…)|other>`.
+//   reapPeer: `qKey := t.makeCachedKey(peer)`, `unlock := t.cachedMutex.Lock(qKey)` + `defer unlock()` (every cache
+//             access must come after it), `x, ok := t.cachedConnections.LoadAndDelete(qKey)` / `….Load(qKey)`,
+//             `t.cachedConnections.Delete(qKey)`, `if ok {…} else {…}` / `if !ok`, `x.quic.CloseWithError(…)` (only
+//             where ok is known to be true: x is a nil pointer otherwise), `<q>.CloseWithError(…)` on the connection
+//             parameter, logging and the RTT bookkeeping (`t.rttMap.Delete`, `if t.RTTRecorder != nil {…}`), `return`.
+//             Facts per path: is the peer's cache entry gone afterwards (del), is the connection of the entry that was
+//             CACHED closed (closeCached), is the connection that triggered the reap closed (closeTrigger).
 //   After the re-load `cached` means rc (does the re-load find an entry) and `cache.direction` means rcdir (the
 //   direction of the entry found by the re-load). `cache` is a nil pointer when the re-load finds nothing, so
 //   rcdir may only be read where rc = true is established: on the right of `cached && …` or inside the
@@ -494,10 +503,207 @@ func c41Trees(path string) (*c41Node, *c41Node) {
 	return snapN, decN
 }
 
+// ---------- reapPeer (overlay/reaper.go) ----------
+
+type c41ReapAcc struct {
+	locked               bool
+	entryVar, loadedVar  string
+	loadedKnown          bool // on this path the loaded flag is known to be true
+	del, closeC, closeTr bool
+}
+
+type c41ReapCtx struct {
+	fset  *token.FileSet
+	qName string // name of the *quic.Conn parameter: the connection that triggered the reap
+}
+
+func (c *c41ReapCtx) leaf(a c41ReapAcc) *c41Node {
+	lean := fmt.Sprintf("{ del := %s, closeCached := %s, closeTrigger := %s }", c41B(a.del), c41B(a.closeC), c41B(a.closeTr))
+	row := fmt.Sprintf("del=%s,closeCached=%s,closeTrigger=%s", c41B(a.del), c41B(a.closeC), c41B(a.closeTr))
+	return &c41Node{kind: "leaf", leaf: lean, leafFn: func(*c41Env) string { return row }}
+}
+
+// only the RTT bookkeeping may sit in the body of `if t.RTTRecorder != nil`
+func (c *c41ReapCtx) rttOnly(b *ast.BlockStmt) {
+	for _, s := range b.List {
+		es, ok := s.(*ast.ExprStmt)
+		if ok {
+			if call, ok := es.X.(*ast.CallExpr); ok && (strings.HasPrefix(c41Sel(call.Fun), "t.RTTRecorder.") || strings.HasPrefix(c41Sel(call.Fun), "t.rttMap.") || strings.HasPrefix(c41Sel(call.Fun), "t.Logger.")) {
+				continue
+			}
+		}
+		c41Fail(c.fset, s, "statement inside the RTTRecorder block of reapPeer")
+	}
+}
+
+func (c *c41ReapCtx) walk(stmts []ast.Stmt, acc c41ReapAcc) *c41Node {
+	for i, s := range stmts {
+		rest := stmts[i+1:]
+		switch x := s.(type) {
+		case *ast.EmptyStmt:
+			continue
+		case *ast.DeferStmt:
+			if c41Sel(x.Call.Fun) == "unlock" && acc.locked {
+				continue
+			}
+			c41Fail(c.fset, s, "defer in reapPeer")
+		case *ast.AssignStmt:
+			if len(x.Rhs) != 1 {
+				c41Fail(c.fset, s, "reapPeer assignment")
+			}
+			call, ok := x.Rhs[0].(*ast.CallExpr)
+			if !ok {
+				c41Fail(c.fset, s, "reapPeer assignment")
+			}
+			switch c41Sel(call.Fun) {
+			case "t.makeCachedKey":
+				continue
+			case "t.cachedMutex.Lock":
+				if len(x.Lhs) != 1 || c41Sel(x.Lhs[0]) != "unlock" || i+1 >= len(stmts) {
+					c41Fail(c.fset, s, "reapPeer: Lock must be `unlock := t.cachedMutex.Lock(qKey)` followed by `defer unlock()`")
+				}
+				if d, ok := stmts[i+1].(*ast.DeferStmt); !ok || c41Sel(d.Call.Fun) != "unlock" {
+					c41Fail(c.fset, s, "reapPeer: Lock not followed by defer unlock()")
+				}
+				acc.locked = true
+				continue
+			case "t.cachedConnections.LoadAndDelete", "t.cachedConnections.Load":
+				if !acc.locked {
+					c41Fail(c.fset, s, "reapPeer reads the cache outside the key's Lock")
+				}
+				if len(x.Lhs) != 2 {
+					c41Fail(c.fset, s, "reapPeer cache load")
+				}
+				acc.entryVar, acc.loadedVar = c41Sel(x.Lhs[0]), c41Sel(x.Lhs[1])
+				acc.loadedKnown = false
+				if acc.loadedVar == "_" {
+					c41Fail(c.fset, s, "reapPeer cache load without the found flag")
+				}
+				if c41Sel(call.Fun) == "t.cachedConnections.LoadAndDelete" {
+					acc.del = true
+				}
+				continue
+			}
+			c41Fail(c.fset, s, "reapPeer assignment from "+c41Sel(call.Fun))
+		case *ast.ExprStmt:
+			call, ok := x.X.(*ast.CallExpr)
+			if !ok {
+				c41Fail(c.fset, s, "reapPeer expression statement")
+			}
+			fn := c41Sel(call.Fun)
+			switch {
+			case strings.HasPrefix(fn, "t.Logger."), strings.HasPrefix(fn, "t.rttMap."), strings.HasPrefix(fn, "t.RTTRecorder."):
+				continue
+			case fn == "t.cachedConnections.Delete":
+				if !acc.locked {
+					c41Fail(c.fset, s, "reapPeer changes the cache outside the key's Lock")
+				}
+				acc.del = true
+				continue
+			case acc.entryVar != "" && acc.entryVar != "_" && fn == acc.entryVar+".quic.CloseWithError":
+				if !acc.loadedKnown {
+					c41Fail(c.fset, s, "reapPeer closes the loaded entry where it is not known to exist (nil entry)")
+				}
+				acc.closeC = true
+				continue
+			case fn == c.qName+".CloseWithError":
+				acc.closeTr = true
+				continue
+			}
+			c41Fail(c.fset, s, "reapPeer call "+fn)
+		case *ast.IfStmt:
+			if x.Init != nil {
+				c41Fail(c.fset, s, "reapPeer if with init")
+			}
+			var elseStmts []ast.Stmt
+			switch e := x.Else.(type) {
+			case nil:
+			case *ast.BlockStmt:
+				elseStmts = e.List
+			case *ast.IfStmt:
+				elseStmts = []ast.Stmt{e}
+			}
+			if be, ok := x.Cond.(*ast.BinaryExpr); ok && be.Op == token.NEQ && c41Sel(be.X) == "t.RTTRecorder" && c41Sel(be.Y) == "nil" && x.Else == nil {
+				c.rttOnly(x.Body)
+				continue
+			}
+			neg := false
+			cond := x.Cond
+			if u, ok := cond.(*ast.UnaryExpr); ok && u.Op == token.NOT {
+				neg, cond = true, u.X
+			}
+			if acc.loadedVar == "" || c41Sel(cond) != acc.loadedVar {
+				c41Fail(c.fset, s, "reapPeer condition")
+			}
+			yes, no := acc, acc
+			yes.loadedKnown = true
+			thenStmts, otherStmts := x.Body.List, elseStmts
+			if neg {
+				thenStmts, otherStmts = elseStmts, x.Body.List
+			}
+			a := c.walk(append(append([]ast.Stmt{}, thenStmts...), rest...), yes)
+			b := c.walk(append(append([]ast.Stmt{}, otherStmts...), rest...), no)
+			return &c41Node{kind: "if", cond: "loaded = true", condFn: func(e *c41Env) bool { return e.rc }, a: a, b: b}
+		case *ast.ReturnStmt:
+			if len(x.Results) != 0 {
+				c41Fail(c.fset, s, "reapPeer return with values")
+			}
+			return c.leaf(acc)
+		default:
+			c41Fail(c.fset, s, fmt.Sprintf("reapPeer statement %T", s))
+		}
+	}
+	return c.leaf(acc)
+}
+
+// the facts of reapPeer as a tree over `loaded` (is an entry cached for the peer when reapPeer holds the lock)
+func c41ReapTree(path string) *c41Node {
+	fset := token.NewFileSet()
+	f, err := parser.ParseFile(fset, path, nil, 0)
+	if err != nil {
+		fmt.Fprintln(os.Stderr, "c41-facts:", err)
+		os.Exit(1)
+	}
+	for _, d := range f.Decls {
+		fd, ok := d.(*ast.FuncDecl)
+		if !ok || fd.Name.Name != "reapPeer" || fd.Body == nil {
+			continue
+		}
+		c := &c41ReapCtx{fset: fset}
+		for _, p := range fd.Type.Params.List {
+			if st, ok := p.Type.(*ast.StarExpr); ok && c41Sel(st.X) == "quic.Conn" && len(p.Names) == 1 {
+				c.qName = p.Names[0].Name
+			}
+		}
+		if c.qName == "" {
+			c41Fail(fset, fd, "reapPeer has no *quic.Conn parameter")
+		}
+		n := c.walk(fd.Body.List, c41ReapAcc{})
+		if n.kind == "leaf" { // no branch on the found flag: the same facts whether or not an entry is cached
+			n = &c41Node{kind: "if", cond: "loaded = true", condFn: func(e *c41Env) bool { return e.rc }, a: n, b: n}
+		}
+		return n
+	}
+	fmt.Fprintln(os.Stderr, "c41-facts: func reapPeer not found in "+path)
+	os.Exit(1)
+	return nil
+}
+
+func c41Args(args []string) (string, string) {
+	if len(args) != 2 {
+		fmt.Fprintln(os.Stderr, "c41-facts: usage: c41-facts|c41-lines <overlay/reuse.go> <overlay/reaper.go>")
+		os.Exit(2)
+	}
+	return args[0], args[1]
+}
+
 func init() {
 	factCmds["c41-facts"] = func(args []string) {
-		snapN, decN := c41Trees(args[0])
-		fmt.Print(`/- GENERATED by extract c41-facts from overlay/reuse.go (func reuseConnection). Do not edit. -/
+		reuse, reaper := c41Args(args)
+		snapN, decN := c41Trees(reuse)
+		reapN := c41ReapTree(reaper)
+		fmt.Print(`/- GENERATED by extract c41-facts from overlay/reuse.go (func reuseConnection) and overlay/reaper.go
+(func reapPeer). Do not edit. -/
 namespace Gen.C41
 
 inductive Dir where
@@ -543,10 +749,31 @@ the re-load (meaningful only when rc = true) -/
 def decide (ps : CState) (pd : Dir) (cached : Bool) (cdir dir : Dir) (rc : Bool) (rcdir : Dir) : Act :=
 `)
 		fmt.Println(decN.lean("  "))
+		fmt.Print(`
+/-- what reapPeer does (facts of overlay/reaper.go) -/
+structure ReapAct where
+  del : Bool
+  closeCached : Bool
+  closeTrigger : Bool
+deriving DecidableEq, Repr
+
+/-- reapPeer under the key's Lock: loaded = an entry is cached for the peer at that moment; del = the entry is gone
+afterwards, closeCached = the connection of the entry that was cached is closed, closeTrigger = the connection
+that triggered the reap is closed -/
+def reap (loaded : Bool) : ReapAct :=
+`)
+		fmt.Println(reapN.lean("  "))
 		fmt.Print("\nend Gen.C41\n")
 	}
 	factCmds["c41-lines"] = func(args []string) {
-		snapN, decN := c41Trees(args[0])
+		reuse, reaper := c41Args(args)
+		snapN, decN := c41Trees(reuse)
+		reapN := c41ReapTree(reaper)
+		defer func() {
+			for _, loaded := range []bool{true, false} {
+				fmt.Printf("reap %s => %s\n", c41B(loaded), reapN.eval(&c41Env{rc: loaded}))
+			}
+		}()
 		bs := []bool{true, false}
 		ds := []string{"incoming", "outgoing"}
 		for _, cached := range bs {
